@@ -941,6 +941,17 @@ def z3_replace_all(s, old, new, ip=None):
 def str_strip(ip, s, which, chars):
     """strip: unique decomposition s = l + m + r with l, r in [chars]* and m not starting/ending with chars."""
     st = S(s)
+    memo = ip.hooks.setdefault(('strip_memo',), {})
+    mkey = (st.get_id(), which, chars)
+    if mkey in memo:
+        return memo[mkey]
+    res = _str_strip(ip, s, which, chars)
+    memo[mkey] = res
+    return res
+
+
+def _str_strip(ip, s, which, chars):
+    st = S(s)
     if chars is None:
         cs = [' ', '\t', '\n', '\r', '\x0b', '\x0c', '\x1c', '\x1d', '\x1e', '\x1f', '\x85', '\xa0']
     else:
@@ -1237,6 +1248,10 @@ def _len(ip, args, kwargs, node):
         return wrap(z3.Length(v.t))
     if isinstance(v, GhostList):
         return v.seq.length
+    if isinstance(v, ADict):
+        return len(v.entries)
+    if isinstance(v, SymSet):
+        return len(v.items)
     if isinstance(v, Obj):
         m = ip.class_lookup(v.cls, '__len__')
         if m is None:
@@ -1985,3 +2000,220 @@ class LazyPick:
     def resolve(self, ip):
         k = concretize(ip, self.key, list(self.table.keys()), None, KeyError)
         return self.table[k]
+
+
+# ------------------------------------------------------------------------------------------
+# dict / set with symbolic keys (association lists; key comparison forks)
+# ------------------------------------------------------------------------------------------
+class ADict(dict):
+    """A dict created by interpreted code.  Entries live in `entries` (insertion ordered list of [key, value]); keys may
+    be symbolic scalars, in which case look-ups compare with == and fork.  The native storage mirrors only the
+    concrete-key entries (so that natively executed code such as len()/iteration on all-concrete dicts still works)."""
+    _pyvc_sym = False
+
+    def __init__(self, *a, **k):
+        super().__init__()
+        self.entries = []
+        for kk, vv in dict(*a, **k).items():
+            self.entries.append([kk, vv])
+            dict.__setitem__(self, kk, vv)
+
+    def has_symbolic_key(self):
+        return any(isinstance(k, (SV, SOpt)) for k, _ in self.entries)
+
+
+def adict_find(ip, d, key):
+    """index of the entry whose key equals `key` (forks on symbolic comparisons) or None"""
+    for n, (k, _) in enumerate(d.entries):
+        r = eq(ip, k, key)
+        if isinstance(r, bool):
+            if r:
+                return n
+            continue
+        if ip.ctx.branch(r):
+            return n
+    return None
+
+
+def adict_set(ip, d, key, val):
+    n = adict_find(ip, d, key)
+    if n is None:
+        d.entries.append([key, val])
+    else:
+        d.entries[n][1] = val
+    if not isinstance(key, (SV, SOpt)) and not has_sym(key):
+        try:
+            dict.__setitem__(d, key, val)
+        except TypeError as e:
+            raise Raised(e)
+
+
+def method_adict(ip, d, name, args, kwargs, node):
+    if name == 'get':
+        n = adict_find(ip, d, args[0])
+        if n is None:
+            return args[1] if len(args) > 1 else kwargs.get('default')
+        return d.entries[n][1]
+    if name == 'setdefault':
+        n = adict_find(ip, d, args[0])
+        if n is None:
+            v = args[1] if len(args) > 1 else None
+            adict_set(ip, d, args[0], v)
+            return v
+        return d.entries[n][1]
+    if name == 'items':
+        return [(k, v) for k, v in d.entries]
+    if name == 'keys':
+        return [k for k, _ in d.entries]
+    if name == 'values':
+        return [v for _, v in d.entries]
+    if name == 'copy':
+        nd = ADict()
+        for k, v in d.entries:
+            nd.entries.append([k, v])
+            if not isinstance(k, (SV, SOpt)):
+                dict.__setitem__(nd, k, v)
+        return nd
+    if name == 'update':
+        src = args[0] if args else {}
+        items = src.entries if isinstance(src, ADict) else list(src.items())
+        for k, v in items:
+            adict_set(ip, d, k, v)
+        for k, v in kwargs.items():
+            adict_set(ip, d, k, v)
+        return None
+    if name == 'pop':
+        n = adict_find(ip, d, args[0])
+        if n is None:
+            if len(args) > 1:
+                return args[1]
+            raise Raised(KeyError(repr(args[0])))
+        k, v = d.entries.pop(n)
+        if not isinstance(k, (SV, SOpt)):
+            dict.pop(d, k, None)
+        return v
+    if name == 'clear':
+        d.entries.clear()
+        dict.clear(d)
+        return None
+    if name == '__len__':
+        return len(d.entries)
+    if name == '__contains__':
+        return adict_find(ip, d, args[0]) is not None
+    raise Unsupported(f"dict.{name} on interpreted dict")
+
+
+class SymSet:
+    """A set created by interpreted code whose members may be objects / symbolic scalars (membership by ==, forks)."""
+    _pyvc_sym = True
+
+    def __init__(self, items=()):
+        self.items = list(items)
+
+
+def symset_contains(ip, s, x):
+    for m in s.items:
+        r = eq(ip, m, x)
+        if isinstance(r, bool):
+            if r:
+                return True
+            continue
+        if ip.ctx.branch(r):
+            return True
+    return False
+
+
+def method_symset(ip, s, name, args, kwargs, node):
+    if name == 'add':
+        if not symset_contains(ip, s, args[0]):
+            s.items.append(args[0])
+        return None
+    if name == '__contains__':
+        return symset_contains(ip, s, args[0])
+    if name == '__len__':
+        return len(s.items)
+    if name in ('update',):
+        for x in ip.iterate(args[0], node):
+            if not symset_contains(ip, s, x):
+                s.items.append(x)
+        return None
+    if name == 'discard' or name == 'remove':
+        for n, m in enumerate(s.items):
+            r = eq(ip, m, args[0])
+            if (isinstance(r, bool) and r) or (not isinstance(r, bool) and ip.ctx.branch(r)):
+                del s.items[n]
+                return None
+        if name == 'remove':
+            raise Raised(KeyError(repr(args[0])))
+        return None
+    raise Unsupported(f"set.{name} on interpreted set")
+
+
+_orig_call_method2 = call_method
+
+
+def call_method(ip, recv, name, args, kwargs, node):     # noqa: F811
+    if isinstance(recv, ADict):
+        return method_adict(ip, recv, name, args, kwargs, node)
+    if isinstance(recv, SymSet):
+        return method_symset(ip, recv, name, args, kwargs, node)
+    return _orig_call_method2(ip, recv, name, args, kwargs, node)
+
+
+_orig_subscript = subscript
+_orig_store_subscript = store_subscript
+_orig_contains = contains
+
+
+def subscript(ip, obj, idx, node):       # noqa: F811
+    if isinstance(obj, ADict):
+        n = adict_find(ip, obj, idx)
+        if n is None:
+            raise Raised(KeyError(repr(idx)))
+        return obj.entries[n][1]
+    return _orig_subscript(ip, obj, idx, node)
+
+
+def store_subscript(ip, obj, idx, val, node):       # noqa: F811
+    if isinstance(obj, ADict):
+        adict_set(ip, obj, idx, val)
+        return
+    return _orig_store_subscript(ip, obj, idx, val, node)
+
+
+def contains(ip, container, x, node):       # noqa: F811
+    if isinstance(container, ADict):
+        return adict_find(ip, container, x) is not None
+    if isinstance(container, SymSet):
+        return symset_contains(ip, container, x)
+    return _orig_contains(ip, container, x, node)
+
+
+@model(set)
+def _set2(ip, args, kwargs, node):
+    if not args:
+        return SymSet()
+    items = list(ip.iterate(args[0], node))
+    if has_sym(items):
+        s = SymSet()
+        for x in items:
+            if not symset_contains(ip, s, x):
+                s.items.append(x)
+        return s
+    try:
+        return set(items)
+    except TypeError as e:
+        raise Raised(e)
+
+
+@model(dict)
+def _dict2(ip, args, kwargs, node):
+    d = ADict()
+    if args:
+        src = args[0]
+        items = src.entries if isinstance(src, ADict) else (list(src.items()) if isinstance(src, dict) else [tuple(kv) for kv in ip.iterate(src, node)])
+        for k, v in items:
+            adict_set(ip, d, k, v)
+    for k, v in kwargs.items():
+        adict_set(ip, d, k, v)
+    return d
